@@ -134,6 +134,8 @@ PLAN = {
         "legs": [
             {"name": "sweep", "flavour": "native", "shards": 4, "shards_thorough": 8},
             {"name": "random", "flavour": "native", "shards": 4, "shards_thorough": 16},
+            {"name": "zst", "flavour": "native", "shards": 1, "shards_thorough": 1},
+            {"name": "miri-zst", "flavour": "miri", "shards": 1, "shards_thorough": 1, "timeout": 600},
             {"name": "asan", "flavour": "asan", "shards": 8, "shards_thorough": 16},
             {"name": "miri-sweep", "flavour": "miri", "shards": 12, "shards_thorough": 16, "timeout": 1500},
             {"name": "miri", "flavour": "miri", "shards": 4, "shards_thorough": 64, "timeout": 1500},
@@ -270,7 +272,7 @@ PLAN = {
                         "socket leg completion is logical (received sum reaches the recorded total) under a 15 s watchdog whose expiry is inconclusive"],
         "legs": [
             {"name": "flush", "flavour": "native", "shards": 4, "shards_thorough": 16},
-            {"name": "socket", "flavour": "native", "shards": 6, "shards_thorough": 60, "timeout": 120},
+            {"name": "socket", "flavour": "native", "shards": 8, "shards_thorough": 64, "timeout": 120},
             {"name": "tsan", "flavour": "tsan", "shards": 2, "shards_thorough": 8, "timeout": 1200, "thorough_only": True},
             {"name": "miri", "flavour": "miri", "shards": 6, "shards_thorough": 48, "miriflags": TB + " " + IGN, "timeout": 1500},
         ],
